@@ -53,7 +53,56 @@ fn decode_history(t: &mut Tape) -> Vec<Op> {
         }
         match t.weighted(&[200, 16, 14, 14, 12]) {
             0 => {
-                let mut spec = ResizeSpec::decode(t, &prof);
+                // either an independent call, or a near-repeat of the previous resize with one aspect changed
+                // (same geometry with another algorithm family / filter / alpha flag / pixel type / crop origin):
+                // state cached between calls under an incomplete key shows up only then
+                let prev = ops.iter().rev().find_map(|o| match o {
+                    Op::Resize(s, None) => Some(s.clone()),
+                    _ => None,
+                });
+                let mut spec = match prev {
+                    Some(mut ps) if t.chance(100) => {
+                        match t.below(8) {
+                            0 => {
+                                ps.alg = match ps.alg {
+                                    AlgSpec::Conv(f) => AlgSpec::Interp(f),
+                                    AlgSpec::Interp(f) => AlgSpec::Super(f, 1 + t.below(3) as u8),
+                                    AlgSpec::Super(f, _) => AlgSpec::Conv(f),
+                                    AlgSpec::Nearest => AlgSpec::Conv(crate::spec::FilterSpec::Builtin(t.below(7) as u8)),
+                                }
+                            }
+                            1 => {
+                                let nf = crate::spec::FilterSpec::Builtin(t.below(7) as u8);
+                                ps.alg = match ps.alg {
+                                    AlgSpec::Conv(_) => AlgSpec::Conv(nf),
+                                    AlgSpec::Interp(_) => AlgSpec::Interp(nf),
+                                    AlgSpec::Super(_, m) => AlgSpec::Super(nf, m),
+                                    AlgSpec::Nearest => AlgSpec::Nearest,
+                                }
+                            }
+                            2 => ps.use_alpha = !ps.use_alpha,
+                            3 => ps.pt = t.pick(&img::PT13),
+                            4 => {
+                                // move the crop window, keep its size
+                                let (l, tp, w, h) = ps.crop_box();
+                                let room_x = (ps.sw as f64 - w).max(0.0);
+                                let room_y = (ps.sh as f64 - h).max(0.0);
+                                let nl = (room_x * t.unit()).floor().min(room_x);
+                                let nt = (room_y * t.unit()).floor().min(room_y);
+                                let _ = (l, tp);
+                                ps.crop = CropSpec::Box { l: nl, t: nt, w, h };
+                            }
+                            5 => ps.content.seed ^= 0x5555 + t.u16() as u64,
+                            6 => ps.alg = AlgSpec::Nearest,
+                            _ => {
+                                ps.dw = (ps.dw + t.range(0, 2)).max(1);
+                                ps.dh = (ps.dh + t.range(0, 2)).max(1);
+                            }
+                        }
+                        ps
+                    }
+                    _ => ResizeSpec::decode(t, &prof),
+                };
                 let mut dst_pt = None;
                 match 15 - t.below(16) {
                     0 => {
